@@ -17,8 +17,9 @@ from props.c01 import srcfacts_values
 PID = 'C03'
 MANIFEST = dict(
     text='Machine-checked (Coq) conservation invariant of the backend micro-step model for every interleaving of log calls, thread exits and backend steps, every capacity, transit-buffer size and soft/hard limit: per thread, committed = processed ++ buffered ++ queued (nothing lost, duplicated or reordered by queue reads, buffer growth, limit exits or context removal), and the sink loop writes a statement exactly once to each sink of its logger that passes its own filter (C03_conservation, C03_sink_loop, C03_sink_gets_line_iff). The model is run against the real backend (ManualBackendWorker::poll_one with yield hooks, real frontend threads, virtual clock) on generated schedules and the property itself is evaluated on the implementation\'s sink calls. Not yet proved here: the bounded-liveness clause (drain within K polls) and unbounded queues. Queue kinds: bounded blocking, bounded dropping and UnboundedBlocking frontends (the default type; initial node 256/1024 bytes so that queues grow). For unbounded frontends the thread record of M-BE carries the node structure of the queue (the sequential layer of M-UQ, updated at every queue call; it decides the backend\'s per-call read limit = capacity of the consumer\'s current node) next to a byte queue too large to fill; the theorems quantify over every initial node structure (premise fresh_thr) and every capacity, and the extracted model is compared with the real backend on growing queues as well.' +
-         ' Below the granularity of that model (which registers a thread context in one frontend step: append to the registry + raise the new-context flag, and refreshes the backend\'s context cache in one backend step: if the flag is up, clear it and copy the registry), also machine-checked ("threads logging for the first time"): the registration / cache-refresh protocol at micro-step granularity for any number of registering threads and the one backend (registration = lock;push_back;unlock then flag:=true; refresh = load of the flag, separate store(false) - or one exchange -, then the rebuild under the lock): for every interleaving of the micro-steps, with append-before-flag and consume-before-rebuild, the cache is always a duplicate-free prefix of the duplicate-free registry, a context whose registration call is over is cached already or a rebuild is due, one more refresh call caches it for good, and when no registration is half-way the cache equals the registry; the load;store consumption that the source has is proved as sound as an exchange (the rebuild follows the store); the micro-step protocol refines the single-step FReg/refresh of the backend model call by call (explicit linearisation trace; the atomic machine is proved equal to M-BE\'s fstep(FReg)/refresh on (registered, newflag, cache)); witness schedules refute flag-before-append (a registered context no later refresh ever caches: its queue is never read) and rebuild-before-consume. Which variant the source has (register_thread_context: one push_back under _spinlock then one store(true) to the std::atomic<bool> flag; new_thread_context_flag: exchange / load;store / compare_exchange; _update_active_thread_contexts_cache: flag consumed in the if condition, rebuild in its body; for_each_thread_context under LockGuard; Spinlock exchange(acquire)/store(release)) is re-read by clang on every run and proved equal to the good flags (T-src). The memory order of the flag accesses is deliberately not constrained (reported only): with the registry under the lock, coherence of the one atomic flag is enough, for relaxed accesses too (hand argument in RegProto.v). Not proved but stress-tested on every run: K real threads registering N fresh contexts each on the real ThreadContextManager while one thread loops the real BackendWorker::_update_active_thread_contexts_cache (K 1-8, N 1-1000, pinned and unpinned; thousands of runs quick, ten times more + a ThreadSanitizer build thorough); a registered context missing from the backend\'s cache after the final refreshes is reported as a concrete failing input (K, N, pin and the observed counts). The stress run sees only the interleavings the machine produces; removal of contexts during registration is not part of the micro-step model (it is a backend-only step of M-BE).',
-    design='5 C03', technique='Coq invariant proof over a backend micro-step machine + deterministic-driver differential correspondence; Coq invariant/refinement proof of the registration protocol over all interleavings + source-fact translator (clang AST) + multi-thread stress search on the real ThreadContextManager/BackendWorker')
+         ' Below the granularity of that model (which registers a thread context in one frontend step: append to the registry + raise the new-context flag, and refreshes the backend\'s context cache in one backend step: if the flag is up, clear it and copy the registry), also machine-checked ("threads logging for the first time"): the registration / cache-refresh protocol at micro-step granularity for any number of registering threads and the one backend (registration = lock;push_back;unlock then flag:=true; refresh = load of the flag, separate store(false) - or one exchange -, then the rebuild under the lock): for every interleaving of the micro-steps, with append-before-flag and consume-before-rebuild, the cache is always a duplicate-free prefix of the duplicate-free registry, a context whose registration call is over is cached already or a rebuild is due, one more refresh call caches it for good, and when no registration is half-way the cache equals the registry; the load;store consumption that the source has is proved as sound as an exchange (the rebuild follows the store); the micro-step protocol refines the single-step FReg/refresh of the backend model call by call (explicit linearisation trace; the atomic machine is proved equal to M-BE\'s fstep(FReg)/refresh on (registered, newflag, cache)); witness schedules refute flag-before-append (a registered context no later refresh ever caches: its queue is never read) and rebuild-before-consume. Which variant the source has (register_thread_context: one push_back under _spinlock then one store(true) to the std::atomic<bool> flag; new_thread_context_flag: exchange / load;store / compare_exchange; _update_active_thread_contexts_cache: flag consumed in the if condition, rebuild in its body; for_each_thread_context under LockGuard; Spinlock exchange(acquire)/store(release)) is re-read by clang on every run and proved equal to the good flags (T-src). The memory order of the flag accesses is deliberately not constrained (reported only): with the registry under the lock, coherence of the one atomic flag is enough, for relaxed accesses too (hand argument in RegProto.v). Not proved but stress-tested on every run: K real threads registering N fresh contexts each on the real ThreadContextManager while one thread loops the real BackendWorker::_update_active_thread_contexts_cache (K 1-8, N 1-1000, pinned and unpinned; thousands of runs quick, ten times more + a ThreadSanitizer build thorough); a registered context missing from the backend\'s cache after the final refreshes is reported as a concrete failing input (K, N, pin and the observed counts). The stress run sees only the interleavings the machine produces; removal of contexts during registration is not part of the micro-step model (it is a backend-only step of M-BE).'
+         ' Backend buffer growth: the slot array of TransitEventBuffer (M-TEB: positions reduced by the mask, _expand moving a wrapped ring to the front of an array of twice the size, try_shrink; variant read from the source each run) is proved to show, for every initial capacity and every history of backend calls, exactly what the list-with-a-doubling-capacity of the micro-step model shows; each detail of _expand/back() is shown necessary by a refutation; model, list and the real class run the same histories (harness/teb.cpp, ASan/UBSan).',
+    design='5 C03', technique='Coq invariant proof over a backend micro-step machine + deterministic-driver differential correspondence; Coq invariant/refinement proof of the registration protocol over all interleavings + source-fact translator (clang AST) + multi-thread stress search on the real ThreadContextManager/BackendWorker; Coq refinement proof (slot array of TransitEventBuffer -> list) + differential correspondence on the real class')
 
 
 def gen(rng, facts):
@@ -267,7 +268,13 @@ TRUSTED = TRUSTED_BE + [
     'harness/reg_mt.cpp: multi-thread stress run of the real ThreadContextManager and the real (private, -fno-access-control) BackendWorker cache refresh (a search for failing inputs, not a proof; it can only observe the interleavings the machine produces)',
 ]
 
-run = run_be(PID, 'Properties_C03', gen, monitor, nontrivial, RULE, n_quick=400, n_thorough=20000, trusted=TRUSTED, extra_phase=reg_phase)
+def _phases(ck, tier, broken):
+    from teb_phase import teb_phase
+    cov = reg_phase(ck, tier, broken) or {}
+    cov.update(teb_phase(ck, tier, broken, 'C03_tie_transit_buffer') or {})
+    return cov
+
+run = run_be(PID, 'Properties_C03', gen, monitor, nontrivial, RULE, n_quick=400, n_thorough=20000, trusted=TRUSTED, extra_phase=_phases)
 _replay_be = replay_be(PID, monitor)
 
 
